@@ -413,6 +413,7 @@ class PureEval:
             if n == "without": return SSetV(args[0].elem, z3.Store(args[0].mem, term_of(args[1]), False))
             if n == "append": return ops.seq_append(args[0], term_of(args[1]))
             if n == "alive": return B(self.st.alive[args[0].t])
+            if n == "was_alive": return B(self.old_st.alive[args[0].t])       # argument evaluated in the current state
             if n == "warned": return B(self.st.warned)
             if n == "always_passed":
                 return B(self.st.ghost.get(f"passed:{e.args[0].value}:{e.args[1].value}", z3.BoolVal(True)))
